@@ -161,19 +161,44 @@ def run(crate, harnesses, jobs=16, timeout=1500, extra=None, log_path=None):
     if extra:
         cmd += extra
     t0 = time.time()
+    skipped = []
+    env = dict(ENV)
     with Lock(crate):
-        try:
-            p = subprocess.run(cmd, cwd=REPO, env=ENV, stdout=subprocess.PIPE, stderr=subprocess.STDOUT,
-                               timeout=timeout, preexec_fn=_limits, text=True, errors="replace")
-            out = p.stdout
-            timed_out = False
-        except subprocess.TimeoutExpired as e:
-            out = (e.stdout or b"")
-            if isinstance(out, bytes):
-                out = out.decode("utf-8", "replace")
-            timed_out = True
-            subprocess.run(["pkill", "-9", "-x", "cbmc"], check=False)
-            subprocess.run(["pkill", "-9", "-x", "kani-driver"], check=False)
+        for attempt in range(3):
+            try:
+                p = subprocess.run(cmd, cwd=REPO, env=env, stdout=subprocess.PIPE, stderr=subprocess.STDOUT,
+                                   timeout=timeout, preexec_fn=_limits, text=True, errors="replace")
+                out = p.stdout
+                timed_out = False
+            except subprocess.TimeoutExpired as e:
+                out = (e.stdout or b"")
+                if isinstance(out, bytes):
+                    out = out.decode("utf-8", "replace")
+                timed_out = True
+                subprocess.run(["pkill", "-9", "-x", "cbmc"], check=False)
+                subprocess.run(["pkill", "-9", "-x", "kani-driver"], check=False)
+                break
+            # A harness module that no longer compiles against the (changed) crate must not take every
+            # other harness down with it: drop exactly the offending module(s) and rebuild.
+            if "could not compile" in out and "Checking harness" not in out:
+                bad = set()
+                in_error = False
+                for line in out.splitlines():
+                    if re.match(r"^error(\[E\d+\])?:", line):
+                        in_error = True
+                    elif re.match(r"^warning(\[\w+\])?:", line):
+                        in_error = False
+                    if in_error:
+                        m_ = re.search(r"--> /verif/kani/%s/((?:in|h)_\w+)\.rs:" % crate, line)
+                        if m_:
+                            bad.add(m_.group(1))
+                bad = sorted(bad - set(skipped))
+                if bad:
+                    skipped += bad
+                    flags = " ".join("--cfg verif_skip_%s" % b for b in skipped)
+                    env = dict(ENV, RUSTFLAGS=(ENV.get("RUSTFLAGS", "") + " " + flags).strip())
+                    continue
+            break
     wall = time.time() - t0
     if log_path:
         with open(log_path, "w") as f:
@@ -190,7 +215,9 @@ def run(crate, harnesses, jobs=16, timeout=1500, extra=None, log_path=None):
                       "failed_checks": [], "covers": None, "time_s": 0.0, "stubs": []}
         else:
             reason = "harness produced no output"
-            if compile_error:
+            if skipped:
+                reason = "its harness module does not compile against the current code and was dropped (%s)" % ", ".join(skipped)
+            elif compile_error:
                 reason = "compile error under cfg(kani): " + compile_error.strip().splitlines()[0]
             elif timed_out:
                 reason = "timeout after %ds" % timeout
